@@ -35,3 +35,28 @@ Example C07_example :
   = [0; 1; 1; 1; 1; 0;  1; 1; 0; 0; 0; 0;  1; 1; 0; 0; 0; 0;  1; 1; 0; 0; 0; 0;
      3; 2; 1; 3; 4; 4; 2;   3; 4; 2; 3; 4; 2; 1].
 Proof. vm_compute. reflexivity. Qed.
+
+(* ---- the read paths through a view's numberSpec as coded (ViewReads.v): the nil / memoizer / limitSpec
+   dispatch with the index and limit clamping of limitSpec.At / Scan / FirstN, against ANY wait oracle,
+   delivers exactly the parent's digits below the view's limit ---- *)
+Require ViewReads LayerC.
+Local Close Scope Z_scope.
+Theorem C07_view_at : forall (D : nat -> option nat), (forall i, D i = None -> D (S i) = None) ->
+  forall (W : nat -> nat -> nat * bool), (forall c i, LayerC.WaitOK D i (W c i)) ->
+  forall c sp p, ViewReads.view_at D W c sp p = ViewReads.Dview D sp p.
+Proof. exact ViewReads.view_at_spec. Qed.
+Theorem C07_view_scan : forall (D : nat -> option nat), (forall i, D i = None -> D (S i) = None) ->
+  forall (W : nat -> nat -> nat * bool), (forall c i, LayerC.WaitOK D i (W c i)) ->
+  forall big k c sp start, (forall q, D q <> None -> q < big) ->
+  (match sp with ViewReads.NLim l => l <= big | _ => True end) ->
+  ViewReads.view_scan D W big k c sp start =
+  ViewReads.view_listing D k sp (match sp with ViewReads.NLim l => Nat.min start l | _ => start end).
+Proof. exact ViewReads.view_scan_spec. Qed.
+Theorem C07_view_all_len : forall (D : nat -> option nat) (W : nat -> nat -> nat * bool),
+  (forall c i, LayerC.WaitOK D i (W c i)) ->
+  forall big c sp, (forall q, D q <> None -> q < big) ->
+  let L := ViewReads.view_all_len W big c sp in
+  (forall j, j < L -> ViewReads.Dview D sp j <> None) /\ ViewReads.Dview D sp L = None.
+Proof. exact ViewReads.view_all_len_spec. Qed.
+Print Assumptions C07_view_scan.
+Print Assumptions C07_view_all_len.
